@@ -207,19 +207,20 @@ type StoreState struct {
 }
 
 type RunResult struct {
-	Msgs      []Msg
-	Err       error
-	Code      connect.Code
-	HasErr    bool
-	Outcome   Outcome
-	Panic     string
-	Session   *pbsubstreamsrpc.SessionInit
-	Handoff   map[string]StoreState // stores handed to the linear phase (nil if no linear phase)
-	HandoffAt uint64
-	Node      string
-	Steps     int
-	VirtTime  time.Duration
-	LeakedIO  int // tier1 writes still in flight when the request returned
+	Msgs       []Msg
+	Err        error
+	Code       connect.Code
+	HasErr     bool
+	Outcome    Outcome
+	Panic      string
+	Session    *pbsubstreamsrpc.SessionInit
+	Handoff    map[string]StoreState // stores handed to the linear phase (nil if no linear phase)
+	HandoffAt  uint64
+	Node       string
+	Steps      int
+	StepBudget int
+	VirtTime   time.Duration
+	LeakedIO   int // tier1 writes still in flight when the request returned
 }
 
 func (r *RunResult) Data() []Msg {
@@ -349,6 +350,22 @@ const (
 
 // RunRequest executes one tier1 request to completion (or hang) under the scheduler.
 // Must be called from the bubble's main goroutine.
+// stepBudget is the liveness bound of one request: a base plus room for every (segment, module) job unit the
+// request can need, so that a long back-fill with small segments and many stages is not taken for a livelock.
+func stepBudget(pkg *PkgDef, spec *ReqSpec, head uint64) int {
+	end := spec.Stop
+	if end == 0 || end > head {
+		end = head
+	}
+	seg := max(spec.SegSize, 1)
+	segs := int(end/seg) + 2
+	nmods := 1
+	if pkg != nil {
+		nmods = max(len(pkg.Modules().Modules), 1)
+	}
+	return MaxStepsPerRequest + 400*segs*nmods
+}
+
 func (e *Env) RunRequest(pkg *PkgDef, spec *ReqSpec, obs StreamObserver) *RunResult {
 	e.mu.Lock()
 	e.reqSeq++
@@ -426,7 +443,8 @@ func (e *Env) RunRequest(pkg *PkgDef, spec *ReqSpec, obs StreamObserver) *RunRes
 		}
 	}()
 	e.inRequest.Store(true)
-	res.Outcome = e.Sim.Drive(done, step0+MaxStepsPerRequest, IdleLimit)
+	res.StepBudget = stepBudget(pkg, spec, e.Chain.Head)
+	res.Outcome = e.Sim.Drive(done, step0+res.StepBudget, IdleLimit)
 	e.inRequest.Store(false)
 	res.Steps = e.Sim.Steps() - step0
 	res.VirtTime = time.Since(t0)
